@@ -456,7 +456,7 @@ pub fn gen_spec(rng: &mut Rng, huge: bool) -> KySpec {
     };
     let n_dicts = rng.range(0, 8) as u8;
     // usually KyTea's small bucket counts; sometimes far more buckets than any word has characters
-    let dict_n = if rng.chance(1, 8) { rng.range(6, 40) as u8 } else { rng.range(1, 5) as u8 };
+    let dict_n = if rng.chance(1, 4) { rng.range(6, 40) as u8 } else { rng.range(1, 5) as u8 };
     let dict_vec = gen_i16s(rng, 3 * usize::from(dict_n) * usize::from(n_dicts));
     let lookup = KyLookup {
         char_dict: Some(char_dict),
@@ -484,8 +484,8 @@ pub fn gen_spec(rng: &mut Rng, huge: bool) -> KySpec {
         let mut items = vec![];
         for _ in 0..rng.range(1, 8) {
             let n = match rng.below(20) {
-                0 | 1 => rng.range(7, 20),
-                2 => rng.range(21, 45),
+                0..=2 => rng.range(7, 20),
+                3 | 4 => rng.range(21, 45),
                 _ => rng.range(1, 6),
             };
             let k = gen::gen_pattern(rng, n);
